@@ -105,6 +105,16 @@ def run (ctx):
                      "the pool's state is written outside the allocator/use-and-free pair: ids handed to the controller may stop identifying exactly one stored packet", (m, site), 'D1')
     _tail(ctx, repo, sw, use, spi)
     return
+  n_before_list_rules = len(ctx.obs)
+  # slots that are objects with operations of their own (`slot.store(...)`, `slot.release()`, `slot.occupied`) are another spelling
+  # of "None or (packet, in_port)": the rules above read the None / tuple spelling and have nothing to say about that one
+  def slot_recv (fn, x, d=0):
+    if _is_buf_slot(x): return True
+    if isinstance(x, ast.Name) and d < 3:
+      dv = q.single_def(fn.node, x.id)
+      return dv is not None and slot_recv(fn, dv, d + 1)
+    return False
+  object_slots = any(isinstance(c.func, ast.Attribute) and slot_recv(fn_, c.func.value) for fn_ in (alloc, use) for c in calls_in(fn_.node))
   # ---- D1 ownership -------------------------------------------------------
   writers = 0
   allowed = {alloc.qual, use.qual}
@@ -130,7 +140,7 @@ def run (ctx):
       for kind, site in q.mutations_of_attr(f.node, BUF):
         writers += 1
         ctx.bad('R-OWN', f, "%s %s" % (kind, BUF), "module-level function writes the buffer list", (m, site), 'D1')
-  ctx.floor('buffer writers', writers, 3)
+  ctx.floor('buffer writers', writers, 1 if object_slots else 3)
 
   # ---- D2 allocator -------------------------------------------------------
   g = q.cfg_of(alloc)
@@ -412,6 +422,11 @@ def run (ctx):
            "the slot is cleared only on paths that emitted the packet" if good else
            "slot is cleared on a path that did not emit its packet (packet lost)", (use.module, s), 'D3')
 
+  if object_slots:
+    from ..report import VIOL, UNDEC
+    for o in ctx.obs[n_before_list_rules:]:
+      if o.verdict == VIOL and o.rule in ('R-DOM', 'R-AGREE', 'R-ORDER') and ('emission only for a slot' in o.detail or 'buffer id = index+1' in o.detail or 'slot freed after emission' in o.detail):
+        o.verdict = UNDEC; o.reason = "the slots are objects with their own operations; this rule reads the None / tuple spelling (was: %s)" % str(o.reason)[:160]
   _tail(ctx, repo, sw, use, spi)
 
 def _tail (ctx, repo, sw, use, spi):
